@@ -6,7 +6,6 @@ and rating the frames is rating the typed rows.
 import Reamber.Lemmas.RateLaws
 import Reamber.Model.Qua
 import Reamber.Model.Osu
-import Reamber.Lemmas.OsuLines
 
 namespace Reamber.Rate
 
@@ -95,7 +94,7 @@ def scaleOsu (r : Rat) (c : Osu.Chart) : Osu.Chart :=
     bpms := c.bpms.map fun b => { b with offset := b.offset / r, bpm := b.bpm * r },
     svs := c.svs.map fun s => { s with offset := s.offset / r } }
 
-theorem chartOk_encOsu (c : Osu.Chart) : chartOk .osu (encOsu c) = true := by
+theorem chartOk_encOsu (c : Osu.Chart) (hp : 0 ≤ c.md.previewTime) : chartOk .osu (encOsu c) = true := by
   simp only [chartOk, Bool.and_eq_true, if_true]
   constructor
   · apply listsOk_of
@@ -112,50 +111,11 @@ theorem chartOk_encOsu (c : Osu.Chart) : chartOk .osu (encOsu c) = true := by
     · simp [hasCol, encOsu]
     · simp [hasCol, encOsu]
   · simp only [encOsu, samplesOk, Bool.and_eq_true]
-    refine ⟨⟨⟨⟨wf_mk _ _ _ (by decide) (fun a => by simp), by decide⟩, ?_⟩, by decide⟩, by decide⟩
+    refine ⟨⟨⟨⟨⟨wf_mk _ _ _ (by decide) (fun a => by simp), by decide⟩, ?_⟩, by decide⟩, by decide⟩, by simpa using hp⟩
     simp [Frame.col, lookupCell, Cell.numeric, List.all_map, Function.comp_def]
 
-theorem scaleChart_encOsu (r : Rat) (c : Osu.Chart) : scaleChart .osu r (encOsu c) = encOsu (scaleOsu r c) := by
+theorem scaleChart_encOsu (r : Rat) (c : Osu.Chart) (hp : 0 ≤ c.md.previewTime) : scaleChart .osu r (encOsu c) = encOsu (scaleOsu r c) := by
   simp [scaleChart, encOsu, scaleOsu, scaleFrame, scaleRow, scaleCell, strCell, timeCols, durCols, bpmCols, List.map_map,
-    Function.comp_def]
-
-/-! ### membership in `sorted(...)` and the sample-event section (small copies of the C01 wrappers, so that C13 depends on
-the osu line lemmas only, not on C01's tie of the metadata writer to the source) -/
-
-theorem mem_insertBy' {α} (le : α → α → Bool) (x a : α) (l : List α) : a ∈ Osu.insertBy le x l ↔ a = x ∨ a ∈ l := by
-  induction l with
-  | nil => simp [Osu.insertBy]
-  | cons y ys ih =>
-    unfold Osu.insertBy
-    split
-    · simp
-    · simp only [List.mem_cons, ih]
-      constructor
-      · rintro (h | h | h)
-        · exact Or.inr (Or.inl h)
-        · exact Or.inl h
-        · exact Or.inr (Or.inr h)
-      · rintro (h | h | h)
-        · exact Or.inr (Or.inl h)
-        · exact Or.inl h
-        · exact Or.inr (Or.inr h)
-
-theorem mem_isort' {α} (le : α → α → Bool) (a : α) (l : List α) : a ∈ Osu.isort le l ↔ a ∈ l := by
-  induction l with
-  | nil => simp [Osu.isort]
-  | cons y ys ih =>
-    have : Osu.isort le (y :: ys) = Osu.insertBy le y (Osu.isort le ys) := rfl
-    rw [this, mem_insertBy', ih]; simp
-
-theorem samples_roundtrip (R : Osu.Render) (ss : List Osu.Sample) (hf : ∀ s ∈ ss, ',' ∉ s.file) :
-    Osu.mapE Osu.readSample (((ss.map Osu.writeSample).map R.line).filter (Osu.startsWith Osu.pSample))
-      = .ok (ss.map Osu.qSample) := by
-  induction ss with
-  | nil => rfl
-  | cons s t ih =>
-    have r := Osu.readSample_writeSample R s (hf s (by simp))
-    have hp : Osu.startsWith Osu.pSample (R.line (Osu.writeSample s)) = true := by
-      rw [Osu.line_writeSample]; simp [Osu.startsWith, Osu.pSample, Osu.joinWith]
-    simp only [List.map_cons, List.filter_cons, hp, if_true, Osu.mapE, r, ih (fun s' hs' => hf s' (by simp [hs']))]
+    Function.comp_def, scalePreview, not_lt.mpr hp]
 
 end Reamber.Rate
